@@ -210,6 +210,11 @@ func (r *PeriodicReader) collectAndExport(ctx context.Context) error {
 	err := r.Collect(ctx, rm)
 	if err == nil {
 		err = r.export(ctx, rm)
+	} else if len(rm.ScopeMetrics) > 0 && ctx.Err() == nil {
+		// A failing callback does not invalidate what the other instruments
+		// produced, and delta aggregations have already been reset by the
+		// collection: export what was collected instead of losing it.
+		err = errors.Join(err, r.export(ctx, rm))
 	}
 	r.rmPool.Put(rm)
 	return err
